@@ -169,11 +169,17 @@ Fixpoint reach (g : graph) (fuel : nat) (n : str) : list str :=
   | O => []
   | S f => flat_map (fun e => snd e :: reach g f (snd e)) (succs g n)
   end.
+(* a schema that references ITSELF (Folder.parent : $ref Folder) is not an order hazard: declared schemas may refer to
+   themselves and are parsed the same way wherever they stand; the guards look at cycles through at least two schemas *)
+Definition strip_self (g : graph) : graph :=
+  map (fun kv => (fst kv, filter (fun e => negb (str_eqb (snd e) (fst kv))) (snd kv))) g.
 Definition on_cycle (g : graph) (n : str) : bool := mem_str n (reach g (length g) n).
-(* F02a guard: no reference cycle at all *)
-Definition guard_acyclic (g : graph) : bool := forallb (fun kv => negb (on_cycle g (fst kv))) g.
+(* F02a guard: no reference cycle through two or more schemas *)
+Definition guard_acyclic (g : graph) : bool :=
+  let g' := strip_self g in forallb (fun kv => negb (on_cycle g' (fst kv))) g'.
 (* F02c guard: no cycle that goes through an allOf edge (child allOf-> parent -> … -> child) *)
 Definition guard_no_allof_cycle (g : graph) : bool :=
+  let g' := strip_self g in
   forallb (fun kv => forallb (fun e => negb (fst e) ||
-                                       negb (str_eqb (snd e) (fst kv) || mem_str (fst kv) (reach g (length g) (snd e))))
+                                       negb (str_eqb (snd e) (fst kv) || mem_str (fst kv) (reach g' (length g') (snd e))))
                              (snd kv)) g.
